@@ -4,7 +4,7 @@ from checks import pipeseq as ps
 
 OPN = {0: "P:set_flow_def(block.)", 1: "P:set_flow_def(block.other.)", 2: "P:input", 3: "P:flush", 4: "P:release(qsink)", 5: "A:release(qsrc handle)",
        7: "C:worker", 8: "C:oob", 9: "P:watcher", 10: "P:set_output(qsink,S1)", 11: "P:set_output(qsink,NULL)",
-       12: "P:register request", 13: "P:unregister request", 14: "C:provider answers", 15: "P:oob"}
+       12: "P:register request", 13: "P:unregister request", 14: "C:provider answers", 15: "P:oob", 16: "P:set+get max_length", 17: "all getters"}
 
 CLAIM = {
     "text": "Bounded model checking of the REAL queue sink / queue source pipes (lib/upipe-modules/upipe_queue_sink.c, "
